@@ -72,7 +72,7 @@ def gen_case(rng, tier):
     nservers = rng.choice([1, 2, 3, n, n, n + 1, n + 2, 12, rng.randint(1, 12)])
     nservers = max(1, min(12, nservers))
     scenario = rng.choice(["create"] * 4 + ["update"] * 6 + ["stale-map"] * 2 + ["unknown-share"] * 2 +
-                          ["homeless-collision"] * 2 + ["stale-duplicate"] * 2)
+                          ["homeless-collision"] * 2 + ["stale-duplicate"] * 3)
     if scenario == "homeless-collision":
         nservers = min(nservers, n)          # every server holds a share (needed to plant a foreign one on any of them)
     if scenario == "stale-duplicate":
@@ -864,15 +864,15 @@ def ferr(res):
 # request's own test vectors.  All writes go through the real allmydata.storage_client._StorageServer adapter
 # (VIServer.get_storage_server), so the conversion under test is executed.
 #
-# GENUINE, open as of /repo 940bcb8 (patches in /var/tmp/c47fix/):
-#   in-place-update-encodes-with-the-writers-default-k-n-instead-of-the-files
-#       mutable/publish.py Publish.update() takes k and N from the node (its client's defaults until it has downloaded the
-#       file) instead of the version being updated: multi-segment MDMF file, writer default k' < k, same N -> success,
-#       every share now mixes segments encoded with k and k' under a header that says k'.  fix: version[5], version[6].
-#   in-place-update-writes-into-a-stale-duplicate-share
-#       mutable/publish.py Publish.update(): goal = every share in the servermap whatever its version; a copy that still
-#       holds an older version gets the new header, hash trees and only the changed segments, and its acknowledgement
-#       counts towards k.  fix: goal = shares whose verinfo equals the version being updated.
+#   c47-replant-update-uses-node-k-n / c47-replant-update-writes-other-version-shares / c47-surviving-writers-counted
+#       (the last one = seeded C47-7): caught as in-place-update-encodes-..., in-place-update-writes-into-a-stale-duplicate-share,
+#       success-with-fewer-than-k-shares-acknowledged.  12/12 planted, seeded C47-1..C47-7 all caught.
+# C47-7 needs two homes of one share number in the writer's servermap (stale-duplicate scenario, optionally brought to the same
+# version by one more honest overwrite) and lost acknowledgements chosen per (server, share number) so that k writers survive
+# on k-1 share numbers (mode k-writers-survive-on-k-1-share-numbers; overwrite and in-place update).
 #
+# Repaired in /repo after this check reported them: 22f500d (Publish.update took k/N from the node's client defaults:
+# key in-place-update-encodes-with-the-writers-default-k-n-instead-of-the-files), 8c22511 (Publish.update wrote into copies
+# holding another version: key in-place-update-writes-into-a-stale-duplicate-share).
 # Repaired in /repo after this check reported it: 8204975 (SDMF update retried after an UncoordinatedWriteError dropped
 # the new data; key update-retried-after-uncoordinated-write-error-loses-the-written-data).
